@@ -351,6 +351,10 @@ def rule_D6_nondet(tree: Tree) -> RuleResult:
                         bad.append((n, f"call of {d or n.func.attr}"))
             if isinstance(n, ast.Attribute) and dotted(n) in ("os.environ",):
                 bad.append((n, "reads os.environ"))
+            # `assert` is compiled away under python -O / PYTHONOPTIMIZE: a check (or an effect on control flow through the surrounding try/except) that exists
+            # only without that setting makes the export depend on the environment
+            if isinstance(n, ast.Assert):
+                bad.append((n, "assert statement (removed under PYTHONOPTIMIZE / -O)"))
             # text-mode open() without an explicit encoding decodes with the locale's encoding: the same file is read differently (or not at all) under LANG=C
             if isinstance(n, ast.Call) and dotted(n.func) in ("open", "io.open"):
                 mode = try_fold(n.args[1]) if len(n.args) > 1 else next((try_fold(k.value) for k in n.keywords if k.arg == "mode"), "r")
